@@ -271,7 +271,7 @@ func (r *Report) finish(repo, verif, prop, tier string, writeEvidence bool) int 
 	report := func(name, why, solverOut string, ob *Obligation) {
 		if ob != nil && !bootstrap && !exp[name] && !(ob.Status == "failed" && !strings.Contains(ob.Solver, "quantifier-free")) {
 			// an obligation that never discharged on the pinned tree and has no genuine model is not claimed
-			if ob.Replay != "" && len(ob.Values) > 0 {
+			if ob.Replay != "" {
 				rp := map[string]interface{}{}
 				if tryReplay(repo, verif, prop, ob, rp) != "confirmed" {
 					undecided = append(undecided, name)
